@@ -111,14 +111,16 @@ func modelPublished(keys []KeyEntry, allowed []string, alg, signer, tk string, w
 	return v
 }
 
-// modelPerClient: the key comes from the storage entry of the named client and the given kid only.
+// modelPerClient: the key comes from the storage entry of the named client and the given kid only. The named client of an
+// assertion is its issuer; a request object is part of the authorization request of the requesting client (the outer
+// client_id), whose registered keys are the configured key set - whatever the object says about itself.
 func modelPerClient(c Case, alg, signer, tk string, weak bool) verdict {
 	var v verdict
 	if !contains(defaultAlgs, alg) {
 		v.Reject = append(v.Reject, "alg-not-allowed")
 	}
 	var keys []KeyEntry
-	switch who(c) {
+	switch requester(c) {
 	case "c1":
 		keys = c.Keys
 	case "c2":
@@ -163,6 +165,19 @@ func model(c Case, b *built) verdict {
 	v.Grey = append(v.Grey, b.Grey...)
 	if c.Tok.Sub != "" && !c.Delegation {
 		v.Grey = append(v.Grey, "subject-check") // default verifier refuses iss != sub: not this property's business
+	}
+	if timeFails(c) {
+		// expired / not yet valid / too old: whether such a token is refused (or, id_token_hint, handed back with an
+		// IDTokenHintExpiredError) is not this property's business - but IF its claims are handed back, all of the above applies
+		v.Grey = append(v.Grey, "time-claims")
+	}
+	if isReqObj(c.Kind) {
+		// iss / client_id of the object do not name the requesting client: the claim-agreement rules (C14) decide whether the
+		// object is refused; here only the provenance of the signature counts
+		cid, has := cidMember(c.Tok, who(c))
+		if r := requester(c); who(c) != r || !has || cid != r {
+			v.Grey = append(v.Grey, "reqobj-names-other-client")
+		}
 	}
 	if weak {
 		v.Grey = append(v.Grey, "raw")
